@@ -2764,7 +2764,7 @@ func (c *compiler) VisitReturnStmt(s *ast.ReturnStmt) ast.VisitResult {
 	}
 	val, valTyp, isTemp := c.evaluate(s.Value)
 	vtable := valTyp.VTable()
-	if typeDef, isTypeDef := ddptypes.CastTypeDef(s.Func.ReturnType); isTypeDef {
+	if typeDef, isTypeDef := ddptypes.CastTypeDef(s.ValueType); isTypeDef {
 		vtable = c.typeDefVTables[c.mangledNameType(typeDef)]
 	}
 	if valTyp.IsPrimitive() {
